@@ -43,6 +43,9 @@ def seed():
         return 1
 
 
+TLAPS_LIB = "/opt/veriftools/tlapm/lib/tlapm/stdlib"
+
+
 def base_env():
     env = dict(os.environ)
     env["CARGO_NET_OFFLINE"] = "true"
@@ -156,6 +159,8 @@ def tlc(module, cfg, workers=8, env_extra=None, timeout=3600, simulate=None, cov
     os.makedirs(metadir, exist_ok=True)
     env = base_env()
     jopts = ["-Xss1g"]
+    if os.path.isdir(TLAPS_LIB):
+        jopts.append(f"-DTLA-Library={TLAPS_LIB}")       # TLAPS.tla for the modules under specs/proofs
     if deque:
         jopts.append("-Dtlc2.tool.queue.IStateQueue=StateDeque")
     if heap:
@@ -171,9 +176,17 @@ def tlc(module, cfg, workers=8, env_extra=None, timeout=3600, simulate=None, cov
         cmd += ["-simulate", simulate]
     if extra:
         cmd += extra
+    cwd = SPECS
+    if "/" in module:
+        # a module in a subdirectory of specs/ is checked from there (library lookup is relative to the spec)
+        sub = os.path.dirname(module)
+        cwd = os.path.join(SPECS, sub)
+        module = os.path.basename(module)
+        if cfg.startswith(sub + "/"):
+            cfg = cfg[len(sub) + 1:]
     cmd += ["-config", cfg, module + ".tla"]
     t0 = time.time()
-    p = subprocess.run(cmd, cwd=SPECS, env=env, stdout=subprocess.PIPE, stderr=subprocess.STDOUT, text=True)
+    p = subprocess.run(cmd, cwd=cwd, env=env, stdout=subprocess.PIPE, stderr=subprocess.STDOUT, text=True)
     r = TlcResult()
     r.wall = time.time() - t0
     r.out = p.stdout
@@ -266,6 +279,38 @@ def apalache_inductive(chk, module, timeout=900):
         chk.notes.append(f"apalache: {module} not decided ({res})")
     log(f"[apalache] {module}: {res}")
     return ok
+
+
+def tlaps_proof(chk, module, timeout=900):
+    """Unbounded assurance for a design-level lemma (specs/proofs/<module>.tla): the TLA+ proof system checks
+    the proof of the module's theorems (for ANY value of its constants).  Like apalache_inductive this says
+    nothing about the code; a missing or failing tool is recorded, never a verdict - except that a proof the
+    prover used to accept and now *refutes* cannot happen (tlapm only fails to prove), so a failure is a note."""
+    wd = os.path.join(WORK, "tlaps", f"{module}-{os.getpid()}")
+    shutil.rmtree(wd, ignore_errors=True)
+    os.makedirs(wd, exist_ok=True)
+    shutil.copy(os.path.join(SPECS, "proofs", module + ".tla"), wd)
+    res = {"proved": 0, "failed": None, "outcome": "not run"}
+    try:
+        p = subprocess.run(["timeout", str(timeout), "tlapm", "--threads", "4", "--cleanfp", module + ".tla"], cwd=wd, env=base_env(),
+                           stdout=subprocess.PIPE, stderr=subprocess.STDOUT, text=True)
+        m = re.search(r"All (\d+) obligations? proved", p.stdout)
+        if m:
+            res = {"proved": int(m.group(1)), "failed": 0, "outcome": "all proved"}
+        else:
+            m2 = re.search(r"(\d+)/(\d+) obligations? failed", p.stdout)
+            res = {"proved": (int(m2.group(2)) - int(m2.group(1))) if m2 else 0, "failed": int(m2.group(1)) if m2 else None,
+                   "outcome": f"not all proved (exit {p.returncode})", "tail": p.stdout[-600:]}
+    except Exception as e:          # noqa: BLE001
+        res["outcome"] = f"not run: {e}"
+    shutil.rmtree(wd, ignore_errors=True)
+    chk.extra.setdefault("tlaps", {})[module] = res
+    if res["outcome"] == "all proved":
+        chk.notes.append(f"tlaps: every theorem of proofs/{module}.tla is proved ({res['proved']} obligations), for any value of its constants")
+    else:
+        chk.notes.append(f"tlaps: proofs/{module}.tla not (fully) checked: {res['outcome']}")
+    log(f"[tlapm] {module}: {res['outcome']} ({res['proved']} obligations)")
+    return res["outcome"] == "all proved"
 
 
 def tlc_counterexample(out, limit=60):
